@@ -118,16 +118,26 @@ def run(prog, chk):
     ok = len(flush) == 1 and bool(poswrites) and fs.dominated(poswrites, guard_nodes=flush, complete=True)
     chk.ob("R3.seek-flushes-before-moving", "SFTPFile.seek", ok, sk.loc, "flush() dominates every position write (pending buffered writes belong to the old position)")
     bad = None
+    nseek = 0
     for whence in (0, 1, 2):
         for start in (0, 7):
-            selfo = Obj(SEEK_SET=0, SEEK_CUR=1, SEEK_END=2, _pos=start, _realpos=start + 3, _rbuffer=b"stale")
-            it = Interp(intrinsics={"self.flush": lambda: None, "self._get_size": lambda: 100, "bytes": lambda: b""}, arith=True)
-            kind, val = it.call_function(sk.node, {sk.params()[0]: selfo, offp: 5, whp: whence})
-            want = {0: 5, 1: start + 5, 2: 105}[whence]
-            if (kind != "return" or selfo._pos != want or selfo._realpos != want or selfo._rbuffer != b"") and bad is None:
-                bad = "whence %d from %d: pos %r realpos %r rbuffer %r, want %d / %d / empty" % (whence, start, selfo._pos, selfo._realpos, selfo._rbuffer, want, want)
+            for ahead in (0, 3):
+                # targets: the logical position itself, the transport position (where the read-ahead stopped), elsewhere
+                for target in sorted(set([start, start + ahead, start + 5, 0])):
+                    offset = {0: target, 1: target - start, 2: target - 100}[whence]
+                    selfo = Obj(SEEK_SET=0, SEEK_CUR=1, SEEK_END=2, _pos=start, _realpos=start + ahead, _rbuffer=b"s" * ahead)
+                    it = Interp(intrinsics={"self.flush": lambda: None, "self._get_size": lambda: 100, "bytes": lambda: b""}, arith=True)
+                    try:
+                        kind, val = it.call_function(sk.node, {sk.params()[0]: selfo, offp: offset, whp: whence})
+                    except Refuse as e:
+                        raise AnalysisError("SFTPFile.seek", "not evaluable: %s" % (e,))
+                    nseek += 1
+                    if (kind != "return" or selfo._pos != target or selfo._realpos != target or selfo._rbuffer != b"") and bad is None:
+                        bad = "whence %d offset %d from pos %d (read ahead to %d): pos %r realpos %r rbuffer %r, want %d / %d / empty" % (
+                            whence, offset, start, start + ahead, selfo._pos, selfo._realpos, selfo._rbuffer, target, target)
     chk.ob("R3.seek-arithmetic-and-readahead-dropped", "SFTPFile.seek", bad is None, sk.loc,
-           "SET/CUR/END x two starting positions%s" % ("" if bad is None else "; first failing: " + bad))
+           "%d cases: SET/CUR/END x positions with and without read-ahead x targets equal to the logical / the transport position / elsewhere%s" % (
+               nseek, "" if bad is None else "; first failing: " + bad))
     tl = prog.method("SFTPFile", "tell")
     rvs = [r.value for r in walk_no_defs(tl.node) if isinstance(r, ast.Return) and r.value is not None]
     rt = [unparse(v) for v in rvs]
@@ -188,12 +198,14 @@ def run(prog, chk):
         for tell0 in (None, 0, 9):
             for offset in (0, 9):
                 for append in ((False, True) if app else (False,)):
-                    for fail in (False, True):
+                    for fail in ((False, True, "eof") if not app else (False, True)):
+                        eof = fail == "eof"
+                        fail = fail is True
                         log = []
 
                         class FObj(object):
                             pass
-                        pos = {"p": 4}
+                        pos = {"p": 4 if tell0 is None else tell0}      # what the handle believes at the start is true
 
                         def f_tell(pos=pos):
                             return pos["p"]
@@ -202,10 +214,12 @@ def run(prog, chk):
                             log.append(("seek", o))
                             pos["p"] = o
 
-                        def f_read(n, pos=pos, log=log, fail=fail):
+                        def f_read(n, pos=pos, log=log, fail=fail, eof=eof):
                             if fail:
                                 raise_ioerror()
                             log.append(("read", pos["p"], n))
+                            if eof:
+                                return b""      # at the end of the file: nothing read, the position stays
                             pos["p"] += 3
                             return b"abc"
 
@@ -234,14 +248,23 @@ def run(prog, chk):
                         else:
                             cur = 4 if tell0 is None else tell0
                             want_seek = offset != cur
-                            moved = 3
-                            okc = kind == "return" and (val == b"abc" if not app else val == "OK") and ([l for l in log if l[0] == "seek"] == ([("seek", offset)] if want_seek else [])) \
-                                and t_after == offset + moved and [l for l in log if l[0] != "seek"][0][1] == (offset if want_seek else 4 if tell0 is None else pos_before(log, tell0, offset))
+                            moved = 0 if eof else 3
+                            okc = kind == "return" and ((val == (b"" if eof else b"abc")) if not app else val == "OK") and ([l for l in log if l[0] == "seek"] == ([("seek", offset)] if want_seek else [])) \
+                                and t_after == offset + moved and [l for l in log if l[0] != "seek"][0][1] == offset
+                        # whatever happened, what the handle believes is where the file really is (or it has forgotten)
+                        if okc and not append and not fail and t_after != pos["p"]:
+                            okc = False
                         if not okc and bad is None:
-                            bad = "tracked %r, requested %r, append %s, fail %s -> %s %r, log %s, tracked after %r" % (tell0, offset, append, fail, kind, val, log, t_after)
+                            bad = "tracked %r, requested %r, append %s, %s -> %s %r, log %s, tracked after %r, file really at %r" % (
+                                tell0, offset, append, "failing" if fail else ("at end of file" if eof else "ok"), kind, val, log, t_after, pos["p"])
         chk.ob("R5.handle-offset-tracking", "SFTPHandle.%s" % m.name, bad is None, m.loc,
                "seek exactly when the requested offset differs from the tracked one, advance by the bytes moved, forget on error%s%s" % (
                    ", never seek in append mode" if app else "", "" if bad is None else "; first failing: " + bad))
+    # a fresh handle knows nothing about the file's position (a file opened for appending starts at its end): the
+    # tracked offset starts as None so that the first request asks the file
+    hi = prog.method("SFTPHandle", "__init__")
+    tw = [unparse(st.value) for st in walk_no_defs(hi.node) if isinstance(st, ast.Assign) and any(unparse(t_).endswith("__tell") for t_ in st.targets)]
+    chk.ob("R5.handle-offset-unknown-at-first", "SFTPHandle.__init__", tw == ["None"], hi.loc, "tracked offset initialised to %s" % (tw or "nothing"))
 
     # ---- R4b: tell() is the logical position, buffered writes included --------------------------------------------------
     # write() parks data in the write buffer without advancing _pos (only _write_all advances it), so either write()
@@ -259,6 +282,29 @@ def run(prog, chk):
            "tell() returns %s; write() %s _pos on its buffered path - %s" % (
                [unparse(r.value) for r in rets], "advances" if adv_in_write else "does not advance",
                "ok" if (adv_in_write or counts_buffer or flushes_first) else "bytes accepted by write() but not yet flushed are missing from tell() (a local file counts them)"))
+
+    # ---- R4c: a write goes to the logical position ----------------------------------------------------------------------
+    # reads pull more than they return, so _realpos (where _write addresses the server) runs ahead of _pos; before data is
+    # accepted for writing the read-ahead is dropped and _realpos pulled back - or there is no read-ahead (test on _rbuffer)
+    fwr = Flow(prog, wr_f, implicit=False)
+    sinks = [n for (n, c) in fwr.nodes_with_call(name="self._write_all")] + [n for (n, c) in fwr.nodes_with_call(name="self._wbuffer.write")]
+    resync = fwr.nodes(lambda n: n.kind == "stmt" and isinstance(n.ast, ast.Assign) and any(unparse(t_) == "self._realpos" for t_ in n.ast.targets)
+                       and (unparse(n.ast.value) == "self._pos" or any(unparse(t_) == "self._pos" for t_ in n.ast.targets)))
+    drop = fwr.nodes(lambda n: n.kind == "stmt" and isinstance(n.ast, ast.Assign) and any(unparse(t_) == "self._rbuffer" for t_ in n.ast.targets)
+                     and (M.is_call(n.ast.value, name="bytes") or (isinstance(n.ast.value, ast.Constant) and n.ast.value.value == b"")))
+
+    def _no_readahead(t_):
+        # "there is read-ahead (on a file that has positions at all)": leaving such a test through its false arm means
+        # there is nothing to re-synchronise
+        return unparse(t_) in ("self._rbuffer", "len(self._rbuffer) > 0", "len(self._rbuffer) != 0", "len(self._rbuffer)", "self.seekable()")
+    gnone = fwr.edge_guard(_no_readahead, "F")
+    rs_ids, dr_ids = set(n.id for n in resync), set(n.id for n in drop)
+    okw = bool(sinks) and all(
+        fwr.cfg.dominated([s_.id], guard_nodes=rs_ids, guard_edge=gnone, avoid_edge=fwr.avoid) and
+        fwr.cfg.dominated([s_.id], guard_nodes=dr_ids, guard_edge=gnone, avoid_edge=fwr.avoid) for s_ in sinks)
+    chk.ob("R4.write-goes-to-logical-position", "BufferedFile.write", okw, wr_f.loc,
+           "%d sink(s); read-ahead dropped (%d) and _realpos pulled back to _pos (%d) before data is accepted%s" % (
+               len(sinks), len(drop), len(resync), "" if okw else " - not on every path: after a buffered read the data lands past the read-ahead"))
 
     # ---- R6 truncate ------------------------------------------------------------------------------------------------
     tr = prog.method("SFTPFile", "truncate")
